@@ -37,11 +37,22 @@ TPrompt == /\ IsEvent("prompt")
            /\ IF Valid(FromJson(Rec[l].pos))
               THEN (LET c == Checks(Rec[l]) IN \A k \in DOMAIN c : c[k]) /\ UNCHANGED skipped
               ELSE skipped' = skipped + 1
-TNext == TPrompt
+\* wall clock: `go` with a budget B on the real binary, repeated until one run answers within the tolerance (scheduling noise can
+\* only add to an answer time, so the verdict is on the SMALLEST overrun); B is the budget the real parser hands to the search
+WallTol == 500
+MinOf(q) == CHOOSE x \in {q[i] : i \in 1..Len(q)} : \A j \in 1..Len(q) : x <= q[j]
+WallChecks(e) == [C07_go_is_answered |-> e.answered,
+                  C07_answers_within_the_budget_plus_a_small_constant |-> Len(e.overrun_ms) >= 1 /\ MinOf(e.overrun_ms) <= WallTol]
+TWall == /\ IsEvent("wall")
+         /\ IF Valid(FromJson(Rec[l].pos))
+            THEN (LET c == WallChecks(Rec[l]) IN \A k \in DOMAIN c : c[k]) /\ UNCHANGED skipped
+            ELSE skipped' = skipped + 1
+TNext == TPrompt \/ TWall
 TSpec == TInit /\ [][TNext]_vars
 
 Diag == (l = StuckAt /\ l <= Len(Rec)) =>
-          PrintT(<<"DIAG", l, Rec[l].fen, "depth", Rec[l].depth, Checks(Rec[l]),
+          IF Rec[l].ev = "wall" THEN PrintT(<<"DIAG", l, Rec[l].fen, Rec[l].go, WallChecks(Rec[l]), Rec[l].budget_ms, Rec[l].overrun_ms>>)
+          ELSE PrintT(<<"DIAG", l, Rec[l].fen, "depth", Rec[l].depth, Checks(Rec[l]),
                    [x \in {"k", "final", "at_stop", "max_gap", "polls"} \cap DOMAIN Rec[l] |-> Rec[l][x]]>>)
 Skipped == (l = Len(Rec) + 1) => PrintT(<<"SKIPPED-NOT-VALID", skipped>>)
 Accepted == LET d == TLCGet("stats").diameter
